@@ -5,19 +5,20 @@ from .mir import callee, callee_matches, Prov
 from .ctx import where_of
 
 EXPLANATION = (
-    "Static analysis of scheme/base.sld (read by the framework's own reader, derived forms expanded with the bundled grammar) "
-    "and of the native half in native/base.rs: (scope) every procedure named in the property is exported and defined or "
-    "imported, every export resolves, and every free identifier of an exported procedure (transitively through helpers) "
-    "resolves to a library definition, an import of the native table, a parameter or a keyword; (arity) every call whose "
-    "operator is a library definition or a native builtin passes an acceptable number of arguments; (cxr) the twelve "
-    "c[ad]{2,3}r procedures are the compositions their names spell; (structural) map, for-each, the folds, memq/memv, "
-    "list-tail, list-ref, last-pair, list?, equal?, make-list, append are structural recursions: guarded by a test of the "
-    "decreasing parameter, recursing on (cdr l) / (- k 1), passing the procedure argument unchanged and applying it exactly "
-    "once per step to (car l), the application preceding the recursion in operand order, with the right equivalence predicate "
-    "for memq/memv; (native) car/cdr return the matching component and raise TypeMisMatch on the empty list and on non-pairs, "
-    "cons builds (first . second), pair? is false on ().")
-NOT_DECIDED = ("the results of the library procedures on values (functional correctness of Scheme code); only the structural "
-               "conditions above, which are necessary for it, are decided.")
+    '(tables) every list procedure of scheme/base.sld named in the property — the twelve c[ad]{2,3}r, list, make- '
+    'list, null?, list?, append, map, for-each, fold-left, fold-right, list-tail, list-ref, last-pair, memq, '
+    "memv, equal? — is evaluated by abstract interpretation of its Scheme source (the framework's own reader, "
+    'derived forms expanded with the bundled grammar.sld; engine/scm/listeval.py) on symbolic lists: opaque atoms '
+    'compared by identity, numbers of equal value and different exactness, proper lists of length 0..3, improper '
+    'and nested lists, every index from 0 to one past the end, and an opaque procedure argument whose calls are '
+    'the events; result, sequence of calls and the error on a too-short list must agree with the R7RS (folds: '
+    'minischeme) definition written out in the checker; (scope) every procedure named in the property is exported '
+    'and defined or imported and every free identifier of an exported procedure resolves; (arity) every internal '
+    'call passes an acceptable number of arguments; (native) car/cdr return the matching component and raise '
+    'TypeMisMatch on the empty list and on non-pairs, cons builds (first . second), pair? is false on ().  The '
+    'natives the library imports are the small models of listeval.py, each the contract a Rust-side rule decides '
+    '(C11-native, C10-eqv, C01-apply-spread, C01-once).')
+NOT_DECIDED = ('lists longer than 3 and nesting deeper than the rows (the recursion schemes are uniform, but that is not proved), random compositions of library calls, and apply (native: only its spreading is decided, by C01).')
 
 PROCS = ["car", "cdr", "cons", "caar", "cadr", "cdar", "cddr", "caaar", "caadr", "cadar", "caddr", "cdaar", "cdadr", "cddar", "cdddr",
          "list", "make-list", "null?", "pair?", "list?", "append", "map", "for-each", "fold-left", "fold-right", "list-tail",
